@@ -29,7 +29,7 @@ func stdVariants(profile string) []variant {
 }
 
 // gangSwap: predicate refusals directed at the placeholder's node (replacement lands on another node), late confirmations
-var gangSwap = variant{Name: "gang-swap", Profile: "gang", Policy: "rtc", Steps: 90, Faults: []string{"predicate_flap", "confirm_late", "node_loss"}, FaultRate: 0.03, Weight: 4}
+var gangSwap = variant{Name: "gang-swap", Profile: "gang", Policy: "rtc", Steps: 90, Faults: []string{"predicate_flap", "confirm_late", "node_loss"}, FaultRate: 0.08, Weight: 4}
 
 var reloadFaults = []string{"reload_valid", "reload_invalid"}
 
